@@ -22,6 +22,7 @@ type V struct {
 	B     bool
 	C     rune
 	S     string // S: raw bytes (may be invalid UTF-8); Y: symbol name
+	BT    bool   // S: the string carries the backtick flag (only values observed from scripts; not settable through the API)
 	Items []*V   // L heads, A elements, H values
 	Tail  *V     // L: tail (K=='N' for a proper list)
 	Keys  []*V   // H: keys (S or Y)
@@ -160,6 +161,9 @@ func (v *V) canon(input bool) string {
 	case 'C':
 		return "C " + strconv.Itoa(int(v.C))
 	case 'S':
+		if v.BT && input {
+			return encStr("T", v.S)
+		}
 		return encStr("S", v.S)
 	case 'Y':
 		return encStr("Y", v.S)
